@@ -59,7 +59,9 @@ def frame_offsets(sc) -> list[int]:
 
 
 def frame_times(sc) -> list[np.datetime64]:
-    return [t_start(sc) + o * dt_s(sc) for o in frame_offsets(sc)]
+    """frame times; 'phase_s' shifts every frame off the model time grid by that many seconds (0 <= phase < dt)"""
+    ph = int(sc["frames"].get("phase_s", 0))
+    return [t_start(sc) + o * dt_s(sc) + ph for o in frame_offsets(sc)]
 
 
 def frame_steps(sc) -> list[int]:
